@@ -74,9 +74,72 @@ def boundary_programs(ctx):
     return progs
 
 
+def const_pool(ctx):
+    """spec/ConstPool.tla: the pool of rule constants never indexed beyond its capacity, a full pool answers
+    with the requested value.  Model-checked with the two pinned-code variants refuted; then the pool hook
+    events of real compiles (programs asking for 10..34 different pooled values, every x86 target) are
+    validated against it (Trace_ConstPool, InBounds with Cap = ORC_N_CONSTANTS)."""
+    res = tlc("ConstPool", "MC_ConstPool.cfg", workers=8, timeout=900)
+    if not tlc_ok(res, "ConstPool"):
+        rp = ctx.save_replay("constpool_model.txt", res["out"][-6000:])
+        ctx.violation("ConstPool (capacity test, requested value loaded) violates %s" % res["violated"], rp)
+        return
+    ctx.add_model(res, "ConstPool")
+    for cfg, inv, name in (("MC_ConstPool_nocheck.cfg", "InBounds", "no capacity test -> InBounds"),
+                           ("MC_ConstPool_loadslast.cfg", "RightValue", "long value loaded from the last entry -> RightValue"),
+                           ("MC_ConstPool_reach.cfg", "FullReachable", "a full pool is reachable in the first pass")):
+        neg = tlc("ConstPool", cfg, workers=2, timeout=300)
+        if neg["violated"] != inv:
+            raise MachineryError("ConstPool %s: expected %s to be refuted, got %s" % (cfg, inv, neg["violated"]))
+        ctx.cov["negative_models_refuted"] = ctx.cov.get("negative_models_refuted", []) + [name]
+    binary = build_harness("h_compile", "asan")
+    ks = list(range(10, 35))
+    def one(a):
+        i, kk = a
+        bf = os.path.join(ctx.work, "pool_%d.txt" % i)
+        tf = os.path.join(ctx.work, "pool_trace_%d.ndjson" % i)
+        open(bf, "w").write("".join("K pool_%d %d\n" % (k, k) for k in kk))
+        if os.path.exists(tf):
+            os.unlink(tf)
+        rc, out = sh([binary, bf, "mmx,sse,avx"], timeout=1200,
+                     env={"ORC_VERIF_TRACE": tf, "ORC_VERIF_POOL": "1", "ASAN_OPTIONS": "exitcode=99:detect_leaks=0",
+                          "H_WATCHDOG": "20", "H_BATCH": "1"})
+        if rc not in (0, 3):
+            raise MachineryError("h_compile (pool) failed rc=%d: %s" % (rc, out[-2000:]))
+        return tf
+    tfs = parallel(one, list(enumerate(chunks(ks, 5))))
+    nev = nfull = 0
+    maxn = 0
+    for i, tf in enumerate(tfs):
+        rows = read_ndjson(tf)
+        ev = [r for r in rows if r["e"] == "Const"]
+        nev += len(ev)
+        nfull += sum(1 for r in ev if r["idx"] == -1)
+        maxn = max([maxn] + [r["n"] for r in ev])
+        died = [r for r in rows if r["e"] == "Died"]
+        for bad in died[:3]:
+            rp = ctx.save_replay("pool_died_%d.ndjson" % i, json.dumps(bad) + "\n")
+            ctx.violation("compile of a constant-pool program did not return cleanly: %s" % json.dumps(bad)[:300], rp)
+        r = T.validate("Trace_ConstPool", "Trace_ConstPool.cfg", tf, timeout=1200)
+        ctx.cov["trace_states"] = ctx.cov.get("trace_states", 0) + r["res"]["distinct"]
+        if not r["accepted"]:
+            bad = rows[min(r["rejected_at"], len(rows)) - 1]
+            rp = ctx.save_replay("pool_%d.ndjson" % i, "".join(json.dumps(x) + "\n" for x in rows[:r["rejected_at"]]))
+            ctx.violation("constant-pool events of a real compile rejected by ConstPool (%s) at %s"
+                          % (r["why"], json.dumps(bad)[:300]), rp)
+        else:
+            ctx.cov["traces_validated_against_impl"] += len(ev)
+    if nev and (maxn < 20 or not nfull):
+        raise MachineryError("constant-pool programs never filled the pool (max n=%d, full answers=%d)" % (maxn, nfull))
+    if not nev:
+        raise MachineryError("no constant-pool events recorded (hook missing?)")
+    ctx.cov["constant_pool"] = dict(events=nev, answered_with_full_pool=nfull, max_pool_length=maxn, programs=len(ks))
+
+
 def tables(ctx):
     from ..opcodes import load
     quick = ctx.quick
+    const_pool(ctx)
     progs = boundary_programs(ctx)
     ctx.cov["boundary_programs"] = len(progs)
     if quick and len(progs) > 700:
@@ -101,6 +164,12 @@ def tables(ctx):
     for cls, cap in (("d", 3), ("s", 7), ("a", 4), ("c", 8), ("p", 8), ("t", 16)):
         for n in (cap - 1, cap, cap + 1, cap + 9):
             lines.append("V %s_%d %s %d" % (cls, n, cls, n))
+    # the compiler's constant pool (constants[20]): programs whose rules ask for k different pooled values,
+    # k below / at / above the capacity (spec/ConstPool.tla gives the boundary and the two legal behaviours
+    # of a full pool; the bounds-checking build decides whether the table is overrun)
+    for k in range(10, 35):
+        lines.append("K pool_%d %d" % (k, k))
+    ctx.cov["constant_pool_programs"] = 25
     ctx.sample(lines[0]); ctx.sample(lines[-1])
     binary = build_harness("h_compile", "asan")
     def one(a):
